@@ -641,6 +641,7 @@ package url
 //@   ensures (url != nil && stateOverride == StateSchemeStart && url.scheme != old(url.scheme)) ==>
 //@           (url.inputUrl == old(cleaned(urlOrRef)) && hasSch(url) && url.scheme == specLowerRunes(inC(url), schEnd(url)))   [C05 protocol-value]
 //@   ensures (url == nil && result1 == nil) ==> result0.inputUrl == old(cleanedP(urlOrRef))   [C01,C06 input-cleaning]
+//@   ensures (url == nil && result1 == nil) ==> len(result0.inputUrl) <= old(len(urlOrRef))   [C01,C06 input-cleaning-never-grows]
 //@   ensures (url == nil && result1 == nil && hasSch(result0)) ==> result0.scheme == specLowerRunes(inC(result0), schEnd(result0))   [C01 scheme-value]
 //@   ensures (url == nil && result1 == nil && !hasSch(result0)) ==> (baseUrl != nil && result0.scheme == baseUrl.scheme)   [C01,C06 relative-reference-keeps-base-scheme]
 //@   ensures (url == nil && result1 == nil && firstHash(result0) == inN(result0)) ==> result0.fragment == nil   [C01,C06 no-hash-no-fragment]
@@ -1118,6 +1119,7 @@ package url
 //@   ensures (result1 == nil && lawCase(result0)) ==> (result0.scheme == u.scheme && pathEq(result0.path, u.path) && (shapeP(u) ==> authEq(result0, u)))   [C06 fragment-or-query-only-reference-keeps-base]
 //@   ensures (result1 == nil && (inN(result0) == 0 || startsHash(result0))) ==> boxEq(result0.query, u.query)   [C06 fragment-only-reference-keeps-query]
 //@   ensures (u.path.opaque && result1 == nil) ==> (hasSch(result0) || startsHash(result0))   [C06 opaque-base-accepts-only-fragment]
+//@   ensures (result1 == nil && old(ref) == "") ==> (boxEq(result0.query, u.query) && result0.fragment == nil)   [C06,C16 empty-reference-yields-the-base-query-without-fragment]
 
 //@ func (*parser).Parse
 //@   noreads url.parserOptions.reportValidationErrors, url.parserOptions.failOnValidationError, url.Url.validationErrors except (*parser).handleError, (*parser).handleErrorWithDescription, (*parser).handleWrappedError   [C15 diagnostics-options-read-only-by-the-error-handlers]
